@@ -333,6 +333,7 @@ struct Lsm {
     t.armed = 1;
     alloc_track().poison = 0xA5;
     alloc_track().poison_free = 0xDD;  // environment answer: what a freed block holds afterwards
+    alloc_track().recycle = 1;         // environment answer: a freed block is handed out again to the next request of the same size
     lsm_pending_fault().clear();
     if (sigsetjmp(t.jb, 1) == 0) { out = op.run(); t.armed = 0; alloc_track().poison = -1; alloc_track().poison_free = -1; if (protect) lsm_protect(false); }
     else {
